@@ -169,6 +169,7 @@ func runC05(cfg Config) {
 	// (e) tarfs.go: tar-stream input and GNU-tar output legs against Model/TarFS.lean (tarfs.go of this harness); a generator of
 	// its own derived from the seed, so that the sections below see the stream of choices they always saw
 	runTarfs(cfg, rep, m, rand.New(rand.NewSource(cfg.Seed^0x7461726673)))
+	runMtreeFS(cfg, rep, m, rand.New(rand.NewSource(cfg.Seed^0x6d74726565)))
 
 	// (b) modes
 	for mo := 0; mo < 65536; mo++ {
